@@ -1663,4 +1663,70 @@ theorem rowOk_sound {source : String} {abi : VC} (h : rowOk source abi = true) :
     · cases h
 
 
+/-! ### Line reads -/
+
+theorem takeLine_nil : takeLine [] = ([], []) := by
+  simp [takeLine, span_eq_takeWhile_dropWhile]
+
+theorem takeLine_cons (a : UInt8) (t : Bytes) :
+    takeLine (a :: t) = if a = 10 then ([10], t) else (a :: (takeLine t).1, (takeLine t).2) := by
+  unfold takeLine
+  simp only [span_eq_takeWhile_dropWhile]
+  by_cases h : a = 10
+  · subst h; simp
+  · have : (a != 10) = true := by simpa using h
+    simp only [List.takeWhile_cons, List.dropWhile_cons, this, if_true, h, if_false]
+    generalize List.dropWhile (fun x => x != 10) t = d
+    cases d <;> simp
+
+theorem takeLine_append (b : Bytes) : (takeLine b).1 ++ (takeLine b).2 = b := by
+  induction b with
+  | nil => simp [takeLine_nil]
+  | cons a t ih => rw [takeLine_cons]; split <;> simp_all
+
+theorem takeLine_nil_iff (b : Bytes) : (takeLine b).1 = [] ↔ b = [] := by
+  cases b with
+  | nil => simp [takeLine_nil]
+  | cons a t => rw [takeLine_cons]; split <;> simp
+
+theorem takeLine_of_newline (l rest : Bytes) (hl : 10 ∉ l) :
+    takeLine (l ++ 10 :: rest) = (l ++ [10], rest) := by
+  induction l with
+  | nil => simp [takeLine_cons]
+  | cons a t ih =>
+    have ha : a ≠ 10 := fun e => hl (by simp [e])
+    have ht : 10 ∉ t := fun m => hl (List.mem_cons_of_mem _ m)
+    simp [takeLine_cons, ha, ih ht]
+
+theorem takeLine_no_newline (b : Bytes) (hb : 10 ∉ b) : takeLine b = (b, []) := by
+  induction b with
+  | nil => simp [takeLine_nil]
+  | cons a t ih =>
+    have ha : a ≠ 10 := fun e => hb (by simp [e])
+    have ht : 10 ∉ t := fun m => hb (List.mem_cons_of_mem _ m)
+    simp [takeLine_cons, ha, ih ht]
+
+theorem stripEol_newline (l : Bytes) :
+    stripEol (l ++ [10]) = if l.getLast? = some 13 then l.dropLast else l := by
+  simp [stripEol]
+
+theorem stripEol_no_newline (b : Bytes) (hb : 10 ∉ b) : stripEol b = b := by
+  unfold stripEol
+  have : b.getLast? ≠ some 10 := by
+    intro h; exact hb (List.mem_of_getLast? h)
+  simp [this]
+
+theorem io_read_line_stdin (σ : Host) (k₁ k₂ k₃ : Nat) :
+    hostOp "io_read_line" [.reader 0, .thunk k₁, .thunk k₂, .thunk k₃] σ =
+      if σ.stdin = [] then (σ, .call 2 [])
+      else ({ σ with stdin := (takeLine σ.stdin).2 }, .call 3 [.bytes (stripEol (takeLine σ.stdin).1)]) := by
+  show (match readWith σ 0 takeLine with
+      | some (got, σ') => if got.isEmpty then (σ', Out.call 2 []) else (σ', .call 3 [.bytes (stripEol got)])
+      | none => (σ, closedError 1)) = _
+  simp only [readWith, if_true]
+  by_cases h : σ.stdin = []
+  · cases σ; simp_all [takeLine_nil]
+  · have : (takeLine σ.stdin).1 ≠ [] := fun e => h ((takeLine_nil_iff _).1 e)
+    simp [h, this]
+
 end ZV.Host
